@@ -214,4 +214,19 @@ CLAIMS["C15"] = {
             "within the budget with the natural interval extension (counted as undecided boxes); dimensions above 3 are not decided for R5.",
 }
 
+CLAIMS["C08"] = {
+    "category": "other",
+    "technique": "InBox qualifier inference with bounded-by facts through min/max and branch refinement; per-path element provenance in the operators; rational normal forms for the unit-affine generators; source classification of every vector write in the closure of the five run() methods",
+    "text": "Infers an in-the-box qualifier for every vector the five algorithms can evaluate: clip() is proved within [lo,hi] from its "
+            "min/max nest; SBX and the three mutators put into a child only the parent's own coordinate or clip(.., bounds[0], bounds[1]) "
+            "of the parameter with the same index, exactly one element per parameter on every path; gen_number is lo + u*(hi-lo) then "
+            "rounded to the nearest multiple of the precision (truncation is rejected), gen_vector draws once per parameter with its bounds, "
+            "the LHS/Halton scaling and the grid levels are unit-affine by normal-form equality, and the factorial builders only select "
+            "from level lists made of the bounds; each update_position leaves both bound facts on every path; and every Individual "
+            "constructor call / vector write in the methods of NSGA-II, EpsMOEA, OMOPSO, SMPSO, PSOGA and Job.evaluate takes its source "
+            "from those proved producers or a copy, with only R2-proved operators wired in and clamping before evaluation. This covers all "
+            "boxes, parents, probabilities and iteration numbers at once. 'Real-valued' (no NaN/complex) is not decided.",
+    "note": "Trusts: lo <= hi; parents in the box (induction over generations); random()/uniform ranges; default pass-through evaluator; float rounding within the 1e-12 tolerance.",
+}
+
 NOT_APPLICABLE = {}
